@@ -130,25 +130,35 @@ def Beh.onRec : Beh → Rec → HookRes
 structure D where
   st : Option St := none
   queries : List (String × Query) := []
+  /-- hook values (objects) of the case: identity → behaviour tokens -/
   behs : List (Nat × String × String × String) := []
+  /-- registrations: registration identity → hook value -/
+  regs : List (Nat × Nat) := []
+  /-- providers registered on the runtime registry -/
+  pids : List Nat := []
   sids : List Nat := []
   conc : PB.SubsConc.Acc := {}
   hconc : PB.HooksConc.HAcc := {}
   /-- which acceptor the `ev` / `obs` lines of the current case go to: the `hconc` header selects the hook protocol -/
   hmode : Bool := false
 
+/-- A call is printed as the implementation's hook value sees it: `h<hook value>`, not the registration. -/
 def fmtCall (d : D) (c : Call) : String :=
-  let (pg, og, pp) := match d.behs.find? (·.1 == c.hook) with
+  let obj := match d.regs.find? (·.1 == c.hook) with
+    | some (_, o) => o
+    | none => c.hook
+  let (pg, og, pp) := match d.behs.find? (·.1 == obj) with
     | some (_, x) => x
     | none => ("?", "?", "?")
   match c.phase with
-  | .preGet => s!"h{c.hook}.pg({c.key})>{pg}"
-  | .postGet => s!"h{c.hook}.og({match c.arg with | some r => fmtRec r | none => "?"})>{og}"
-  | .prePut => s!"h{c.hook}.pp({match c.arg with | some r => fmtRec r | none => "?"})>{pp}"
+  | .preGet => s!"h{obj}.pg({c.key})>{pg}"
+  | .postGet => s!"h{obj}.og({match c.arg with | some r => fmtRec r | none => "?"})>{og}"
+  | .prePut => s!"h{obj}.pp({match c.arg with | some r => fmtRec r | none => "?"})>{pp}"
 
 def fmtErr : Err → String
   | .notfound => "notfound" | .denied => "denied" | .readonly => "readonly" | .notimpl => "notimpl"
   | .unmanaged => "unmanaged" | .query => "query" | .veto c => s!"veto{c}"
+  | .notinjected => "notinjected" | .injected => "injected" | .taken => "taken"
 
 def fmtOut (d : D) (o : Out) : String :=
   let cs := String.join (o.calls.map (fun c => " " ++ fmtCall d c))
@@ -184,9 +194,22 @@ def parseRecSpec : List String → Option Rec
     | none => none
   | _ => none
 
+/-- Database operations go through the registry front (`rstep`): for every storage but a runtime registry that has
+    not been injected yet this is `step`. -/
 def doOp (d : D) (st : St) (op : Op) : D × String :=
-  let (st', o) := step st op
+  let (st', o) := rstep st (.db op)
   ({ d with st := some st' }, fmtOut d o)
+
+def doROp (d : D) (st : St) (op : ROp) : D × String :=
+  let (st', o) := rstep st op
+  ({ d with st := some st' }, fmtOut d o)
+
+def mkHook (rid obj : Nat) (q : Query) (pg og pp : String) : Option Hook :=
+  match parseBeh false pg, parseBeh true og, parseBeh true pp with
+  | some bpg, some bog, some bpp =>
+    some { id := rid, obj := obj, q := q, usesPreGet := bpg.uses, usesPostGet := bog.uses, usesPrePut := bpp.uses,
+           preGet := fun _ => bpg.onKey, postGet := bog.onRec, prePut := bpp.onRec }
+  | _, _, _ => none
 
 def isNum (s : String) : Bool := s.toNat?.isSome
 
@@ -212,7 +235,13 @@ def handle (d : D) (line : String) : D × String :=
     let k : Option Kind := match kind with
       | "hashmap" => some .hashmap | "bbolt" => some .bbolt | "inj" => some .inj | "reg" => some .reg | _ => none
     match k with
-    | none => bad
+    | none =>
+      -- `db regraw 0`: a fresh runtime registry and nothing else — no provider, not injected
+      if kind == "regraw" && sh == "0" then ({ d with st := some St.initReg }, "ok") else bad
+    | some .reg =>
+      -- `db reg 0`: the order the runtime module itself uses — inject, then one provider (0) on the prefix `a/`
+      if sh == "1" then bad else
+      ({ d with st := some (rrun St.initReg [.inject, .register 0 "a/"]).1, pids := [0] }, "ok")
     | some k => if sh == "1" && k != .hashmap then bad else ({ d with st := some (St.init ⟨k, sh == "1"⟩) }, "ok")
   | _ =>
   match d.st with
@@ -247,18 +276,57 @@ def handle (d : D) (line : String) : D × String :=
       else bad
     | none => bad
   | ["hook", hid, qid, pg, og, pp] =>
-    match hid.toNat?, d.queries.find? (·.1 == qid), parseBeh false pg, parseBeh true og, parseBeh true pp with
-    | some id, some (_, q), some bpg, some bog, some bpp =>
-      if (d.behs.find? (·.1 == id)).isSome then bad else
-      let h : Hook := { id := id, q := q, usesPreGet := bpg.uses, usesPostGet := bog.uses, usesPrePut := bpp.uses,
-                        preGet := fun _ => bpg.onKey, postGet := bog.onRec, prePut := bpp.onRec }
-      let (d', out) := doOp d st (.regHook h)
-      (if out == "ok" then { d' with behs := d'.behs ++ [(id, pg, og, pp)] } else d', out)
-    | _, _, _, _, _ => bad
+    -- a new hook value, registered once (registration identity = identity of the hook value)
+    match hid.toNat?, d.queries.find? (·.1 == qid) with
+    | some id, some (_, q) =>
+      if (d.behs.find? (·.1 == id)).isSome || (d.regs.find? (·.1 == id)).isSome then bad else
+      match mkHook id id q pg og pp with
+      | none => bad
+      | some h =>
+        let (d', out) := doOp d st (.regHook h)
+        (if out == "ok" then { d' with behs := d'.behs ++ [(id, pg, og, pp)], regs := d'.regs ++ [(id, id)] } else d', out)
+    | _, _ => bad
+  | ["rehook", rid, hid, qid] =>
+    -- the existing hook value `hid` registered once more, as registration `rid`, with query `qid`
+    match rid.toNat?, hid.toNat?, d.queries.find? (·.1 == qid) with
+    | some rid, some obj, some (_, q) =>
+      if (d.behs.find? (·.1 == rid)).isSome || (d.regs.find? (·.1 == rid)).isSome then bad else
+      match d.behs.find? (·.1 == obj) with
+      | none => bad
+      | some (_, pg, og, pp) =>
+        match mkHook rid obj q pg og pp with
+        | none => bad
+        | some h =>
+          let (d', out) := doOp d st (.regHook h)
+          (if out == "ok" then { d' with regs := d'.regs ++ [(rid, obj)] } else d', out)
+    | _, _, _ => bad
   | ["unhook", hid] =>
     match hid.toNat? with
-    | some id => if (d.behs.find? (·.1 == id)).isSome then doOp d st (.cancelHook id) else bad
+    | some id => if (d.regs.find? (·.1 == id)).isSome then doOp d st (.cancelHook id) else bad
     | none => bad
+  | ["inject"] => if st.cfg.kind == .reg then doROp d st .inject else bad
+  | ["prov", pid, key] =>
+    match pid.toNat? with
+    | some id =>
+      if st.cfg.kind != .reg || !okKey key || d.pids.contains id then bad else
+      let (d', out) := doROp d st (.register id key)
+      (if out == "ok" then { d' with pids := d'.pids ++ [id] } else d', out)
+    | none => bad
+  | ["ppushn", pid, k, key, n, s, fl] =>
+    -- one call of the (variadic) push function with k records: same key / S / flags, N = n, n+1, …
+    match pid.toNat?, k.toNat?, n.toInt? with
+    | some id, some k, some n =>
+      if st.cfg.kind != .reg || !d.pids.contains id || k < 2 || k > 4 || !okKey key || !okStr s || !okFlags fl then bad
+      else
+        let st' := (List.range k).foldl (fun (acc : St) (i : Nat) => (rstep acc (.push id ⟨key, n + (i : Int), s, parseFlags fl⟩)).1) st
+        ({ d with st := some st' }, "ok")
+    | _, _, _ => bad
+  | ["ppush", pid, key, n, s, fl] =>
+    match pid.toNat?, n.toInt? with
+    | some id, some n =>
+      if st.cfg.kind != .reg || !d.pids.contains id || !okKey key || !okStr s || !okFlags fl then bad
+      else doROp d st (.push id ⟨key, n, s, parseFlags fl⟩)
+    | _, _ => bad
   | [op, ic, key, n, s, fl] =>
     if !(op == "put" || op == "putnew" || op == "putmany") then bad else
     match parseIface ic, n.toInt? with
@@ -272,7 +340,12 @@ def handle (d : D) (line : String) : D × String :=
     | _, _ => bad
   | ["push", key, n, s, fl] =>
     match n.toInt? with
-    | some n => if !okKey key || !okStr s || !okFlags fl then bad else doOp d st (.push ⟨key, n, s, parseFlags fl⟩)
+    | some n =>
+      if !okKey key || !okStr s || !okFlags fl then bad
+      else if st.cfg.kind == .reg then
+        -- on a runtime registry `push` is the push function of provider 0
+        (if d.pids.contains 0 then doROp d st (.push 0 ⟨key, n, s, parseFlags fl⟩) else bad)
+      else doOp d st (.push ⟨key, n, s, parseFlags fl⟩)
     | none => bad
   | [op, ic, key] =>
     match parseIface ic with
